@@ -37,16 +37,25 @@ func init() {
 			for which := 0; which <= 2; which++ {
 				cs = append(cs, driver.Case{Harness: "verifH_c09_scalarmult", Pkg: "internal/sm9/bn256", Config: "purego", Params: P("which", which), Overrides: dl, MaxUnwind: 4000, TimeoutS: 1500, Portfolio: true})
 			}
+			dl2 := map[string]string{
+				"(*" + m + ".twistPoint).Add":         "verifModel_dl_twistPoint_Add",
+				"(*" + m + ".twistPoint).Double":      "verifModel_dl_twistPoint_Double",
+				"(*" + m + ".twistPoint).SetInfinity": "verifModel_dl_twistPoint_SetInfinity",
+				m + ".NewTwistGenerator":             "verifModel_dl_NewTwistGenerator",
+			}
+			for which := 0; which <= 2; which++ {
+				cs = append(cs, driver.Case{Harness: "verifH_c09_scalarmult_g2", Pkg: "internal/sm9/bn256", Config: "purego", Params: P("which", which), Overrides: dl2, MaxUnwind: 4000, TimeoutS: 1500, Portfolio: true})
+			}
 			pov := map[string]string{m + ".miller": "verifModel_miller", m + ".finalExponentiation": "verifModel_finalExponentiation"}
 			for which := 0; which <= 3; which++ {
 				cs = append(cs, driver.Case{Harness: "verifH_c09_pair_identity", Pkg: "internal/sm9/bn256", Config: "purego", Params: P("which", which), Overrides: pov, MaxUnwind: 4000, TimeoutS: 600, Portfolio: true})
 			}
 			return cs
 		},
-		Functions:   []string{"internal/sm9/bn256.(*G1).ScalarMult, (*G1).ScalarBaseMult, generatorTable, (*curvePointTable).Select, curvePointMovCond (drivers; point formulas replaced)", "internal/sm9/bn256.(*gfP).Unmarshal, lessThanP, gfpUnmarshal (purego)", "(*G1).Unmarshal, (*G2).Unmarshal, (*GT).Unmarshal"},
+		Functions:   []string{"internal/sm9/bn256.(*G1).ScalarMult, (*G1).ScalarBaseMult, (*G2).ScalarMult, (*G2).ScalarBaseMult, generatorTable, pairing (identity arguments), (*curvePointTable).Select, curvePointMovCond (drivers; point formulas replaced)", "internal/sm9/bn256.(*gfP).Unmarshal, lessThanP, gfpUnmarshal (purego)", "(*G1).Unmarshal, (*G2).Unmarshal, (*GT).Unmarshal"},
 		Assumptions: []string{"decoders: field multiplication uninterpreted, Montgomery conversion the identity (plain-domain model), curve membership opaque; the field prime is the package constant p2", "scalar multiplication: exact-multiple model (a point is the integer it is a multiple of; complete addition = integer addition, doubling = shift)"},
 		Bounds:      map[string]string{"quick": "every 32-byte value for gfP; every byte string of the exact and exact+3 length for G1 (64), G2 (128), GT (384), plus short inputs", "thorough": "same"},
-		Outside:     []string{"group laws of the field-level point formulas, G2/GT scalar multiplication, bilinearity, non-degeneracy, Marshal∘Unmarshal identity (field arithmetic)", "compressed encodings (square roots)"},
+		Outside:     []string{"group laws of the field-level point formulas, GT exponentiation, Miller loop and final exponentiation, bilinearity, non-degeneracy, Marshal∘Unmarshal identity (field arithmetic)", "compressed encodings (square roots)"},
 		Oracle:      "canonical-range predicate",
 	})
 }
